@@ -170,6 +170,9 @@ Qed.
 
 Section Refine.
 Variable hash : list N -> N.
+(* every node id of the table lies below `bound` (the histories use the table's own id counter; put() uses the value
+   the counter had before newobj) *)
+Variable bound : positive.
 
 Definition abs (t : ltbl) : lmap := map payload (t_ents t).
 Definition cfg_of (t : ltbl) : lcfg := mkCfg (t_unique t) (t_casei t) (t_top t) (t_fwd t).
@@ -177,7 +180,7 @@ Definition payok (o : lobj) : Prop := ohash o = hash (oname o) /\ odata o <> [].
 Record inv (t : ltbl) : Prop := mkInv {
   inv_num : t_num t = N.of_nat (length (t_ents t));
   inv_nodup : NoDup (ids (t_ents t));
-  inv_fresh : Forall (fun o => Pos.lt (oid o) (t_nextid t)) (t_ents t);
+  inv_fresh : Forall (fun o => Pos.lt (oid o) bound) (t_ents t);
   inv_pay : Forall payok (t_ents t) }.
 
 Definition pm (t : ltbl) (name : option (list N)) : lobj -> bool :=
